@@ -550,12 +550,10 @@ func derivesFrom(v ssa.Value, depth int, pred func(ssa.Value) bool) bool {
 			return false
 		}
 		if a, ok := v.(*ssa.Alloc); ok {
-			for _, r := range *a.Referrers() {
-				switch st := r.(type) {
-				case *ssa.Store:
-					if st.Addr == a && walk(st.Val, d-1) {
-						return true
-					}
+			// composite under construction: values stored into it, its fields and elements (nested)
+			for _, sv := range storedInto(a, 6) {
+				if walk(sv, d-1) {
+					return true
 				}
 			}
 			return false
